@@ -130,6 +130,12 @@ impl<'a> Gen<'a> {
         let out = self.world.exec(&op);
         writeln!(self.w, "{op} => {out}").unwrap();
         self.ops += 1;
+        // a case is cut when it grows beyond all proportion (normal cases have a few thousand ops):
+        // keeps a run bounded when a defect makes the router re-forward or spin
+        if self.ops > 40_000 && !self.dead {
+            self.dead = true;
+            self.st.tag("case-cut-overlong");
+        }
         let kind = op.split_whitespace().take(if op.starts_with("ev") { 3 } else { 1 }).filter(|t| t.parse::<u64>().is_err()).collect::<Vec<_>>().join("-");
         self.st.tag(&format!("op:{kind}"));
         if out.starts_with("PANIC") {
